@@ -1,6 +1,6 @@
 /-
 C01 — the path evaluator of the model equals the specification (`eval = sem`) on the typed
-fragment, for every well-formed array, under the trigger predicate `safe` of the known findings.
+fragment, for every well-formed array.
 -/
 import EPV.Lemmas.AxesAxis
 namespace EPV.XP
@@ -515,151 +515,15 @@ theorem matchTest_eq_testOK (w : WF m a) (ax : Axis) (t : Test) (i : Nat) :
     | name u l => cases ax <;> simp [matchTest, h0, principalKind]
     | nsAny u => cases ax <;> simp [matchTest, h0, principalKind]
 
-theorem evalStep_eq_old (w : WF m a) {n : Nat} (hn : n < a.length) (ax : Axis) (t : Test) (ab : Bool)
-    (hb : okF01b a ax n = true) (hc : okF01c a ax n = true) (hi : okF01i m ax ab n = true) :
+/-- one step = the specified step -/
+theorem evalStep_eq (w : WF m a) {n : Nat} (hn : n < a.length) (ax : Axis) (t : Test) (ab : Bool) :
     evalStep m a ax t ab n = stepSet m a ax t n := by
-  have hi' : explicitChildAtDummy m ax ab n = false := by simpa [okF01i] using hi
   unfold evalStep stepSet
-  rw [hi', axis_eq w hn ax (by simp [axisOK, hb, hc])]
-  simp only [Bool.false_eq_true, if_false, List.filter_filter]
+  rw [axis_eq w hn ax]
+  simp only [List.filter_filter]
   apply List.filter_congr
   intro i _
   rw [matchTest_eq_testOK w, Bool.and_comm]
-
-/-- the specified `following::t` set of an attribute / namespace node -/
-theorem stepSet_following_AN (w : WF m a) {n : Nat} (hn : n < a.length) (han : isAN a n = true) (t : Test) :
-    stepSet m a .following t n =
-      (allNodes a).filter fun i => decide (n < i) && !isAN a i && matchTest m a .elem t i := by
-  unfold stepSet
-  apply List.filter_congr
-  intro i hi
-  have hi' : i < a.length := List.mem_range.1 hi
-  have hleaf := w.leaf n hn (isED_false_of_AN han)
-  have hanc : isAnc a n i = false := by
-    cases h : isAnc a n i with
-    | false => rfl
-    | true => have := (isAnc_iff w hi').1 h; omega
-  have hvn : isDummyDoc m n = false := by
-    cases hv : isDummyDoc m n with
-    | false => rfl
-    | true =>
-      obtain ⟨_, rfl, h0, _⟩ := w.v_is_doc hv
-      rw [isAN_false_of_doc h0] at han; cases han
-  rw [← matchTest_eq_testOK w .following t i]
-  simp only [onAxis, isV_eq, isAttrOrNs_eq, hvn, hanc, Bool.not_false, Bool.true_and, Bool.and_true, principal]
-  by_cases hlt : n < i
-  · have hvi : isDummyDoc m i = false := not_v_of_pos (by omega)
-    simp [hlt, hvi]
-  · simp [hlt]
-
-theorem stepSet_attribute_attr (w : WF m a) {n : Nat} (hn : n < a.length) (hk : kd a n = .attr) (t : Test) :
-    stepSet m a .attribute t n = [] := by
-  unfold stepSet
-  rw [List.filter_eq_nil_iff]
-  intro i hi
-  have hi' : i < a.length := List.mem_range.1 hi
-  have hed : isED a n = false := by simp [isED, hk]
-  have := w.leaf_no_child hi' hed hn
-  simp [onAxis, this]
-
-theorem stepSet_child_dummy (w : WF m a) {n : Nat} (hv : isDummyDoc m n = true) (t : Test) :
-    stepSet m a .child t n = if matchTest m a .elem t (rootIdx m) then [rootIdx m] else [] := by
-  obtain ⟨rfl, rfl, h0, hs0, hl, h1, hs1⟩ := w.v_is_doc hv
-  have hce := child_eq w (n := 0) (by omega)
-  have hic : iterAxis .dummy a .child 0 = [1] := by
-    simp [iterAxis, iterChildren, isED, h0, isDummyDoc, rootIdx]
-  unfold stepSet
-  have : (allNodes a).filter (fun i => onAxis .dummy a .child 0 i && testOK .dummy a .child t i) =
-      ((allNodes a).filter (onAxis .dummy a .child 0)).filter (testOK .dummy a .child t) := by
-    rw [List.filter_filter]; apply List.filter_congr; intro i _; rw [Bool.and_comm]
-  rw [this, ← hce, hic]
-  have ht : testOK .dummy a .child t 1 = matchTest .dummy a .elem t 1 :=
-    (matchTest_eq_testOK w .child t 1).symm
-  cases hm : matchTest .dummy a .elem t 1 <;> simp [List.filter, ht, hm, rootIdx]
-
-/-- one step = the specified step, outside the exact triggers -/
-theorem evalStep_eq (w : WF m a) {n : Nat} (hn : n < a.length) (ax : Axis) (t : Test) (ab : Bool)
-    (hs : stepSafe m a ax t ab n = true) : evalStep m a ax t ab n = stepSet m a ax t n := by
-  unfold stepSafe at hs
-  simp only [Bool.and_eq_true, Bool.not_eq_true'] at hs
-  obtain ⟨⟨hb, hc⟩, hi⟩ := hs
-  by_cases hob : okF01b a ax n = true
-  · by_cases hoc : okF01c a ax n = true
-    · by_cases hoi : okF01i m ax ab n = true
-      · exact evalStep_eq_old w hn ax t ab hob hoc hoi
-      · -- explicit child at the dummy document, the root element fails the test
-        have hx : explicitChildAtDummy m ax ab n = true := by simpa [okF01i] using hoi
-        have hx' := hx
-        unfold explicitChildAtDummy at hx'
-        simp only [Bool.and_eq_true, Bool.not_eq_true', beq_iff_eq] at hx'
-        obtain ⟨⟨_, rfl⟩, hv⟩ := hx'
-        have hm : matchTest m a .elem t (rootIdx m) = false := by
-          simpa [trigF01i, hx] using hi
-        rw [stepSet_child_dummy w hv, hm]
-        simp [evalStep, hx]
-    · -- attribute axis from an attribute that fails the test
-      have hk : ax = .attribute ∧ kd a n = .attr := by
-        cases ax <;> simp [okF01c] at hoc ⊢
-        exact hoc
-      obtain ⟨rfl, hk⟩ := hk
-      have hm : matchTest m a .attr t n = false := by simpa [trigF01c, hk] using hc
-      rw [stepSet_attribute_attr w hn hk]
-      simp [evalStep, explicitChildAtDummy, iterAxis, iterAttributes, hk, principal, hm]
-  · -- following from an attribute / namespace node with nothing to select
-    have hk : ax = .following ∧ isAN a n = true := by
-      cases ax <;> simp [okF01b] at hob ⊢
-      exact hob
-    obtain ⟨rfl, han⟩ := hk
-    have hnone : ((List.range a.length).any fun i => decide (n < i) && !isAN a i && matchTest m a .elem t i) = false := by
-      simpa [trigF01b, han] using hb
-    rw [stepSet_following_AN w hn han]
-    have : (allNodes a).filter (fun i => decide (n < i) && !isAN a i && matchTest m a .elem t i) = [] := by
-      rw [List.filter_eq_nil_iff]
-      intro i hi h
-      have : ((List.range a.length).any fun i => decide (n < i) && !isAN a i && matchTest m a .elem t i) = true :=
-        List.any_eq_true.2 ⟨i, hi, h⟩
-      rw [hnone] at this; cases this
-    rw [this]
-    simp [evalStep, explicitChildAtDummy, iterAxis, iterFollowings, han]
-
-/-- **exactness of the triggers**: when one of them holds the model's step really differs from the
-specified step — `safe` excludes nothing but the three findings -/
-theorem stepSafe_exact (w : WF m a) {n : Nat} (hn : n < a.length) (ax : Axis) (t : Test) (ab : Bool)
-    (hs : stepSafe m a ax t ab n = false) : evalStep m a ax t ab n ≠ stepSet m a ax t n := by
-  unfold stepSafe at hs
-  simp only [Bool.and_eq_false_iff, Bool.not_eq_false'] at hs
-  rcases hs with (hb | hc) | hi
-  · -- F01b
-    unfold trigF01b at hb
-    simp only [Bool.and_eq_true, beq_iff_eq] at hb
-    obtain ⟨⟨rfl, han⟩, hany⟩ := hb
-    rw [stepSet_following_AN w hn han]
-    have hl : evalStep m a .following t ab n = [] := by
-      simp [evalStep, explicitChildAtDummy, iterAxis, iterFollowings, han]
-    rw [hl]
-    intro h
-    rw [List.any_eq_true] at hany
-    obtain ⟨i, hi, hp⟩ := hany
-    have : i ∈ (allNodes a).filter (fun i => decide (n < i) && !isAN a i && matchTest m a .elem t i) :=
-      List.mem_filter.2 ⟨hi, hp⟩
-    rw [← h] at this
-    simp at this
-  · -- F01c
-    unfold trigF01c at hc
-    simp only [Bool.and_eq_true, beq_iff_eq] at hc
-    obtain ⟨⟨rfl, hk⟩, hm⟩ := hc
-    rw [stepSet_attribute_attr w hn hk]
-    simp [evalStep, explicitChildAtDummy, iterAxis, iterAttributes, hk, principal, hm]
-  · -- F01i
-    unfold trigF01i at hi
-    simp only [Bool.and_eq_true] at hi
-    obtain ⟨hx, hm⟩ := hi
-    have hx' := hx
-    unfold explicitChildAtDummy at hx'
-    simp only [Bool.and_eq_true, Bool.not_eq_true', beq_iff_eq] at hx'
-    obtain ⟨⟨_, rfl⟩, hv⟩ := hx'
-    rw [stepSet_child_dummy w hv, hm]
-    simp [evalStep, hx]
 
 theorem iterParent_eq (w : WF m a) {n : Nat} (hn : n < a.length) :
     iterParent m a n = stepSet m a .parent .node n := by
@@ -771,41 +635,36 @@ theorem mem_items {C : List Focus} {c : Focus} (h : c ∈ C) : c.item ∈ C.map 
   List.mem_map_of_mem h
 
 theorem eval_eq_sem_aux (w : WF m a) : ∀ (e : Expr) (t : Ty) (f : Focus), ty e = some t →
-    f.item < a.length → safeG (stepSafe m a) m a e f = true → eval m a e f = sem m a e f := by
+    f.item < a.length → eval m a e f = sem m a e f := by
   intro e
   induction e with
   | step ax t' ab =>
-    intro t f _ hf hs
+    intro t f _ hf
     simp only [eval, sem]
-    rw [evalStep_eq w hf ax t' ab (by simpa [safeG] using hs)]
-  | ctxItem => intro t f _ _ _; rfl
-  | parentAbbr => intro t f _ hf _; simp only [eval, sem]; rw [iterParent_eq w hf]
-  | rootOnly => intro t f _ _ _; rfl
-  | num k => intro t f _ _ _; rfl
-  | lit ng k => intro t f _ _ _; rfl
-  | position => intro t f _ _ _; rfl
-  | last => intro t f _ _ _; rfl
+    rw [evalStep_eq w hf ax t' ab]
+  | ctxItem => intro t f _ _; rfl
+  | parentAbbr => intro t f _ hf; simp only [eval, sem]; rw [iterParent_eq w hf]
+  | rootOnly => intro t f _ _; rfl
+  | num k => intro t f _ _; rfl
+  | lit ng k => intro t f _ _; rfl
+  | position => intro t f _ _; rfl
+  | last => intro t f _ _; rfl
   | paren e ih =>
-    intro t f h hf hs
+    intro t f h hf
     simp only [ty] at h
     simp only [eval, sem]
-    exact ih t f h hf (by simpa [safeG] using hs)
+    exact ih t f h hf
   | root e ih =>
-    intro t f h hf hs
+    intro t f h hf
     obtain ⟨h1, _⟩ := ty_root h
     simp only [eval, sem]
-    exact ih .path _ h1 w.pos (by simpa [safeG] using hs)
+    exact ih .path _ h1 w.pos
   | pred e p ihe ihp =>
-    intro t f h hf hs
+    intro t f h hf
     obtain ⟨h1, ⟨tp, h2⟩, _⟩ := ty_pred h
-    simp only [safeG, Bool.and_eq_true, List.all_eq_true] at hs
-    obtain ⟨hse, hsp⟩ := hs
-    have he := ihe .path f h1 hf hse
+    have he := ihe .path f h1 hf
     obtain ⟨l, hl⟩ := hasTy_path (sem_typed (m := m) (a := a) e .path f h1)
     have hgood := sem_good e f l hf hl
-    rw [he, hl] at hsp
-    simp only [nodesOf] at hsp
-    rw [predFocus_eq e (nodup_of_sorted hgood.1)] at hsp
     simp only [eval, sem, he, hl]
     rw [predFocus_eq e (nodup_of_sorted hgood.1)]
     have hmap : ((predContexts (predAxisReverse e) l).map fun f' => keep (eval m a p f') f') =
@@ -816,20 +675,16 @@ theorem eval_eq_sem_aux (w : WF m a) : ∀ (e : Expr) (t : Ty) (f : Focus), ty e
         have := mem_items hc
         rw [predContexts_items] at this
         exact hgood.2 _ this
-      rw [keep_eq_predTruth, ihp tp c h2 hci (hsp c hc)]
+      rw [keep_eq_predTruth, ihp tp c h2 hci]
     rw [hmap, filterFlags_eq_selectBy]
     cases selectBy (predContexts (predAxisReverse e) l)
         ((predContexts (predAxisReverse e) l).map fun c => predTruth (sem m a p c) c) <;> rfl
   | slash l r ihl ihr =>
-    intro t f h hf hs
+    intro t f h hf
     obtain ⟨h1, h2, _⟩ := ty_slash h
-    simp only [safeG, Bool.and_eq_true, List.all_eq_true] at hs
-    obtain ⟨hsl, hsr⟩ := hs
-    have hl := ihl .path f h1 hf hsl
+    have hl := ihl .path f h1 hf
     obtain ⟨ls, hls⟩ := hasTy_path (sem_typed (m := m) (a := a) l .path f h1)
     have hgood := sem_good l f ls hf hls
-    rw [hl, hls] at hsr
-    simp only [nodesOf] at hsr
     simp only [eval, sem, hl, hls]
     have hitems := selectWithFocus_items l ls
     have hb : ∀ c ∈ selectWithFocus l ls, c.item < a.length := by
@@ -841,7 +696,7 @@ theorem eval_eq_sem_aux (w : WF m a) : ∀ (e : Expr) (t : Ty) (f : Focus), ty e
         (selectWithFocus l ls).map (sem m a r) := by
       apply List.map_congr_left
       intro c hc
-      exact ihr .path c h2 (hb c hc) (hsr c hc)
+      exact ihr .path c h2 (hb c hc)
     rw [hmap]
     apply union_lemma
     · intro c hc
@@ -862,15 +717,11 @@ theorem eval_eq_sem_aux (w : WF m a) : ∀ (e : Expr) (t : Ty) (f : Focus), ty e
         refine ⟨c, hc, ?_⟩
         rwa [sem_irrel r c ⟨c.item, 1, 1⟩ h2 rfl]
   | dslash l r ihl ihr =>
-    intro t f h hf hs
+    intro t f h hf
     obtain ⟨h1, h2, _⟩ := ty_dslash h
-    simp only [safeG, Bool.and_eq_true, List.all_eq_true] at hs
-    obtain ⟨hsl, hsr⟩ := hs
-    have hl := ihl .path f h1 hf hsl
+    have hl := ihl .path f h1 hf
     obtain ⟨ls, hls⟩ := hasTy_path (sem_typed (m := m) (a := a) l .path f h1)
     have hgood := sem_good l f ls hf hls
-    rw [hl, hls] at hsr
-    simp only [nodesOf] at hsr
     simp only [eval, sem, hl, hls]
     have hitems := selectWithFocus_items l ls
     have hb : ∀ c ∈ selectWithFocus l ls, c.item < a.length := by
@@ -881,14 +732,14 @@ theorem eval_eq_sem_aux (w : WF m a) : ∀ (e : Expr) (t : Ty) (f : Focus), ty e
     -- the expanded contexts
     have hb2 : ∀ c ∈ (selectWithFocus l ls).flatMap (fun f' =>
         (iterDescendants m a true f'.item).map fun d => ({ f' with item := d } : Focus)),
-        c.item < a.length ∧ safeG (stepSafe m a) m a r c = true ∧
+        c.item < a.length ∧
           ∃ f' ∈ selectWithFocus l ls, c.item ∈ iterDescendants m a true f'.item := by
       intro c hc
       rw [List.mem_flatMap] at hc
       obtain ⟨f', hf', hc⟩ := hc
       rw [List.mem_map] at hc
       obtain ⟨d, hd, rfl⟩ := hc
-      exact ⟨((descendants_mem w (hb f' hf') true d).1 hd).1, hsr f' hf' d hd, f', hf', hd⟩
+      exact ⟨((descendants_mem w (hb f' hf') true d).1 hd).1, f', hf', hd⟩
     have hmap : (((selectWithFocus l ls).flatMap fun f' =>
           (iterDescendants m a true f'.item).map fun d => ({ f' with item := d } : Focus)).map
             fun f' => eval m a r f') =
@@ -897,7 +748,7 @@ theorem eval_eq_sem_aux (w : WF m a) : ∀ (e : Expr) (t : Ty) (f : Focus), ty e
             (sem m a r) := by
       apply List.map_congr_left
       intro c hc
-      exact ihr .path c h2 (hb2 c hc).1 (hb2 c hc).2.1
+      exact ihr .path c h2 (hb2 c hc).1
     rw [hmap]
     apply union_lemma
     · intro c hc
@@ -908,7 +759,7 @@ theorem eval_eq_sem_aux (w : WF m a) : ∀ (e : Expr) (t : Ty) (f : Focus), ty e
     · intro x
       constructor
       · rintro ⟨c, hc, hx⟩
-        obtain ⟨hci, _, f', hf', hd⟩ := hb2 c hc
+        obtain ⟨hci, f', hf', hd⟩ := hb2 c hc
         refine ⟨c.item, ?_, ?_⟩
         · rw [mem_unionSets]
           refine ⟨hci, _, List.mem_map.2 ⟨f'.item, ?_, rfl⟩, ?_⟩
@@ -928,9 +779,8 @@ theorem eval_eq_sem_aux (w : WF m a) : ∀ (e : Expr) (t : Ty) (f : Focus), ty e
           exact ⟨f', hf', List.mem_map.2 ⟨d, hd', rfl⟩⟩
         · rwa [sem_irrel r { f' with item := d } ⟨d, 1, 1⟩ h2 rfl]
   | droot e ih =>
-    intro t f h hf hs
+    intro t f h hf
     obtain ⟨h1, _⟩ := ty_droot h
-    simp only [safeG, List.all_eq_true] at hs
     simp only [eval, sem]
     have hds : (allNodes a).filter (fun i => onAxis m a .descendantOrSelf 0 i) =
         iterDescendants m a true 0 := (descendantOrSelf_eq w w.pos).symm
@@ -944,7 +794,7 @@ theorem eval_eq_sem_aux (w : WF m a) : ∀ (e : Expr) (t : Ty) (f : Focus), ty e
       intro c hc
       rw [List.mem_map] at hc
       obtain ⟨d, hd, rfl⟩ := hc
-      exact ih .path _ h1 (hb d hd) (hs d hd)
+      exact ih .path _ h1 (hb d hd)
     rw [hmap]
     apply union_lemma
     · intro c hc
@@ -963,14 +813,13 @@ theorem eval_eq_sem_aux (w : WF m a) : ∀ (e : Expr) (t : Ty) (f : Focus), ty e
       · rintro ⟨d, hd, hx⟩
         exact ⟨_, List.mem_map.2 ⟨d, hd, rfl⟩, hx⟩
   | union l r ihl ihr =>
-    intro t f h hf hs
+    intro t f h hf
     obtain ⟨h1, h2, _⟩ := ty_union h
-    simp only [safeG, Bool.and_eq_true] at hs
     obtain ⟨x, hx⟩ := hasTy_path (sem_typed (m := m) (a := a) l .path f h1)
     obtain ⟨y, hy⟩ := hasTy_path (sem_typed (m := m) (a := a) r .path f h2)
     have gx := sem_good l f x hf hx
     have gy := sem_good r f y hf hy
-    simp only [eval, sem, ihl .path f h1 hf hs.1, ihr .path f h2 hf hs.2, hx, hy, Val.nodes.injEq]
+    simp only [eval, sem, ihl .path f h1 hf, ihr .path f h2 hf, hx, hy, Val.nodes.injEq]
     rw [docOrder_eq _ a.length]
     · unfold unionSets allNodes
       apply List.filter_congr
@@ -982,38 +831,33 @@ theorem eval_eq_sem_aux (w : WF m a) : ∀ (e : Expr) (t : Ty) (f : Focus), ty e
       · exact gx.2 i hi
       · exact gy.2 i hi
   | count e ih =>
-    intro t f h hf hs
+    intro t f h hf
     obtain ⟨h1, _⟩ := ty_count h
-    simp only [safeG] at hs
-    simp only [eval, sem, ih .path f h1 hf hs]
+    simp only [eval, sem, ih .path f h1 hf]
     cases sem m a e f <;> rfl
   | cmp op l r ihl ihr =>
-    intro t f h hf hs
+    intro t f h hf
     obtain ⟨h1, h2, _⟩ := ty_cmp h
-    simp only [safeG, Bool.and_eq_true] at hs
-    simp only [eval, sem, ihl .num f h1 hf hs.1, ihr .num f h2 hf hs.2, cmpNat_eq_compare]
+    simp only [eval, sem, ihl .num f h1 hf, ihr .num f h2 hf, cmpNat_eq_compare]
     cases sem m a l f <;> cases sem m a r f <;> rfl
   | and l r ihl ihr =>
-    intro t f h hf hs
+    intro t f h hf
     obtain ⟨⟨tl, h1⟩, ⟨tr, h2⟩, _⟩ := ty_and h
-    simp only [safeG, Bool.and_eq_true] at hs
-    simp only [eval, sem, ihl tl f h1 hf hs.1, ihr tr f h2 hf hs.2, ebv_eq_boolOf]
+    simp only [eval, sem, ihl tl f h1 hf, ihr tr f h2 hf, ebv_eq_boolOf]
     generalize boolOf (sem m a l f) = x
     generalize boolOf (sem m a r f) = y
     rcases x with _ | (_ | _) <;> rcases y with _ | (_ | _) <;> rfl
   | or l r ihl ihr =>
-    intro t f h hf hs
+    intro t f h hf
     obtain ⟨⟨tl, h1⟩, ⟨tr, h2⟩, _⟩ := ty_or h
-    simp only [safeG, Bool.and_eq_true] at hs
-    simp only [eval, sem, ihl tl f h1 hf hs.1, ihr tr f h2 hf hs.2, ebv_eq_boolOf]
+    simp only [eval, sem, ihl tl f h1 hf, ihr tr f h2 hf, ebv_eq_boolOf]
     generalize boolOf (sem m a l f) = x
     generalize boolOf (sem m a r f) = y
     rcases x with _ | (_ | _) <;> rcases y with _ | (_ | _) <;> rfl
   | not e ih =>
-    intro t f h hf hs
+    intro t f h hf
     obtain ⟨⟨te, h1⟩, _⟩ := ty_not h
-    simp only [safeG] at hs
-    simp only [eval, sem, ih te f h1 hf hs, ebv_eq_boolOf]
+    simp only [eval, sem, ih te f h1 hf, ebv_eq_boolOf]
     generalize boolOf (sem m a e f) = x
     rcases x with _ | (_ | _) <;> rfl
 
